@@ -246,7 +246,170 @@ def gen_sigs(repo=None):
     out.append('Definition methods_2d : list string := [' + '; '.join(cstr(n) for n in m2) + '].\n')
     out.append(f'Definition get_method_1d : gm_shape := {g1}.')
     out.append(f'Definition get_method_2d : gm_shape := {g2}.')
+    out += gen_setups(repo)
     return '\n'.join(out) + '\n'
+
+
+# ---------------------------------------------------------------- per-point arguments in _setup_*
+SETUPS = ['_setup_whittaker', '_setup_polynomial', '_setup_spline', '_setup_classification']
+
+
+def _is_name(n, ident):
+    return isinstance(n, ast.Name) and n.id == ident
+
+
+def _is_self_attr(n, attr):
+    return isinstance(n, ast.Attribute) and n.attr == attr and _is_name(n.value, 'self')
+
+
+def _sort_stmt(st):
+    """if self._sort_order is not None and weights is not None: weight_array = weight_array[self._sort_order]"""
+    expect = ast.dump(ast.parse(
+        'if self._sort_order is not None and weights is not None:\n'
+        '    weight_array = weight_array[self._sort_order]\n').body[0])
+    return ast.dump(st) == expect
+
+
+def _ravel_kind(call):
+    """weight_array.ravel(...) -> 'C' | 'other'"""
+    if call.args:
+        a = call.args[0]
+        return 'C' if (len(call.args) == 1 and isinstance(a, ast.Constant) and a.value == 'C' and not call.keywords) else 'other'
+    if not call.keywords:
+        return 'C'
+    if len(call.keywords) == 1 and call.keywords[0].arg == 'order' and isinstance(call.keywords[0].value, ast.Constant) \
+            and call.keywords[0].value.value == 'C':
+        return 'C'
+    return 'other'
+
+
+def setup_entry(cls, name, two_d):
+    fn = _methods(cls).get(name)
+    if fn is None:
+        raise TranslateError(f'{name} not found')
+    body = _body_wo_doc(fn)
+    first = None
+    dtype = order = axis = None
+    ens = 'true'
+    size_shape = None
+    sort = False
+    flat = 'FlNone'
+    for i, st in enumerate(body):
+        # every statement that mentions weight_array as a store target or calls a method on it must be recognised
+        targets = [t for n in ast.walk(st) if isinstance(n, (ast.Assign, ast.AugAssign, ast.AnnAssign))
+                   for t in (n.targets if isinstance(n, ast.Assign) else [n.target])
+                   if any(_is_name(m, 'weight_array') for m in ast.walk(t))]
+        if not targets:
+            continue
+        if first is None:
+            if not (isinstance(st, ast.Assign) and len(st.targets) == 1 and _is_name(st.targets[0], 'weight_array')
+                    and isinstance(st.value, ast.Call) and _is_name(st.value.func, '_check_optional_array')):
+                raise TranslateError(f'{name}: weight_array is not first assigned from _check_optional_array')
+            call = st.value
+            if len(call.args) != 2 or not _is_name(call.args[1], 'weights'):
+                raise TranslateError(f'{name}: unexpected positional arguments of _check_optional_array')
+            if _is_self_attr(call.args[0], '_shape'):
+                size_shape = 'true'
+            elif _is_self_attr(call.args[0], '_size'):
+                size_shape = 'false'
+            else:
+                raise TranslateError(f'{name}: unexpected size argument')
+            dtype, order, axis = 'WNone', 'ONone', 'AxLast'
+            for kw in call.keywords:
+                v = kw.value
+                if kw.arg == 'dtype':
+                    dtype = {'float': 'WFloat', 'bool': 'WBool'}.get(v.id, 'WOtherDt') if isinstance(v, ast.Name) else 'WOtherDt'
+                elif kw.arg == 'order':
+                    order = 'OC' if isinstance(v, ast.Constant) and v.value == 'C' else \
+                        ('ONone' if isinstance(v, ast.Constant) and v.value is None else 'OOther')
+                elif kw.arg == 'ensure_1d':
+                    if not (isinstance(v, ast.Constant) and isinstance(v.value, bool)):
+                        raise TranslateError(f'{name}: ensure_1d is not a literal')
+                    ens = 'true' if v.value else 'false'
+                elif kw.arg == 'axis':
+                    if isinstance(v, ast.Call) and _is_name(v.func, 'slice') and len(v.args) == 1 and not v.keywords \
+                            and isinstance(v.args[0], ast.Constant) and v.args[0].value is None:
+                        axis = 'AxAll'
+                    elif isinstance(v, ast.UnaryOp) and isinstance(v.op, ast.USub) and isinstance(v.operand, ast.Constant) \
+                            and v.operand.value == 1:
+                        axis = 'AxLast'
+                    else:
+                        axis = 'AxOther'
+                elif kw.arg in ('copy_input', 'check_finite', 'name'):
+                    pass
+                else:
+                    raise TranslateError(f'{name}: unexpected keyword {kw.arg} of _check_optional_array')
+            first = i
+            continue
+        if _sort_stmt(st) and not sort and flat == 'FlNone':
+            sort = True
+            continue
+        if isinstance(st, ast.Assign) and len(st.targets) == 1 and _is_name(st.targets[0], 'weight_array'):
+            v = st.value
+            if _is_name(v, 'weight_array'):
+                continue            # weight_array = weight_array
+            if isinstance(v, ast.Call) and isinstance(v.func, ast.Attribute) and v.func.attr == 'ravel' \
+                    and _is_name(v.func.value, 'weight_array') and flat == 'FlNone':
+                flat = 'FlRavelC' if _ravel_kind(v) == 'C' else 'FlOther'
+                continue
+            flat = 'FlOther'
+            continue
+        if isinstance(st, ast.If) and not st.orelse and ast.dump(st.test) == ast.dump(
+                ast.parse('not whittaker_system._using_svd').body[0].value) and flat == 'FlNone':
+            inner = [b for b in st.body if isinstance(b, ast.Assign) and len(b.targets) == 1
+                     and _is_name(b.targets[0], 'weight_array')]
+            if len(inner) == 1 and isinstance(inner[0].value, ast.Call) and isinstance(inner[0].value.func, ast.Attribute) \
+                    and inner[0].value.func.attr == 'ravel' and _is_name(inner[0].value.func.value, 'weight_array'):
+                flat = 'FlRavelCUnlessSvd' if _ravel_kind(inner[0].value) == 'C' else 'FlOther'
+                continue
+        flat = 'FlOther'
+    if first is None:
+        raise TranslateError(f'{name}: no weight_array assignment')
+    return (f'{{| su_two_d := {"true" if two_d else "false"}; su_name := {cstr(name)}; su_size_is_shape := {size_shape}; '
+            f'su_dtype := {dtype}; su_order := {order}; su_ensure_1d := {ens}; su_axis := {axis}; '
+            f'su_sort := {"true" if sort else "false"}; su_flat := {flat} |}}')
+
+
+EXPECTED_INNER_SIG = ['self', 'data']
+
+
+def inner_shape(cls):
+    """_register: def inner(self, data=None, *args, **kwargs) with exactly one call func(self, y, *args, **kwargs)."""
+    reg = _methods(cls).get('_register')
+    if reg is None:
+        return 'InUnknown'
+    inners = [n for n in ast.walk(reg) if isinstance(n, ast.FunctionDef) and n.name == 'inner']
+    if len(inners) != 1:
+        return 'InUnknown'
+    fn = inners[0]
+    a = fn.args
+    ok = ([x.arg for x in a.args] == EXPECTED_INNER_SIG and not a.posonlyargs and not a.kwonlyargs
+          and a.vararg is not None and a.vararg.arg == 'args' and a.kwarg is not None and a.kwarg.arg == 'kwargs'
+          and len(a.defaults) == 1 and isinstance(a.defaults[0], ast.Constant) and a.defaults[0].value is None)
+    calls = [n for n in ast.walk(fn) if isinstance(n, ast.Call) and _is_name(n.func, 'func')]
+    expect = ast.dump(ast.parse('func(self, y, *args, **kwargs)').body[0].value)
+    ok = ok and len(calls) == 1 and ast.dump(calls[0]) == expect
+    # args / kwargs are not touched anywhere else, data is not rebound
+    for n in ast.walk(fn):
+        if isinstance(n, ast.Name) and n.id in ('args', 'kwargs') and not any(n is m for c in calls for m in ast.walk(c)):
+            ok = False
+        if isinstance(n, ast.Name) and n.id == 'data' and isinstance(n.ctx, ast.Store):
+            ok = False
+    return 'InDataArgsKwargs' if ok else 'InUnknown'
+
+
+def gen_setups(repo):
+    out = []
+    t1, _ = _parse('pybaselines/_algorithm_setup.py', repo)
+    t2, _ = _parse('pybaselines/two_d/_algorithm_setup.py', repo)
+    c1, c2 = _classes(t1).get('_Algorithm'), _classes(t2).get('_Algorithm2D')
+    if c1 is None or c2 is None:
+        raise TranslateError('_Algorithm / _Algorithm2D not found')
+    ents = [setup_entry(c1, n, False) for n in SETUPS] + [setup_entry(c2, n, True) for n in SETUPS]
+    out.append('Definition setups : list setup_entry := [\n  ' + ';\n  '.join(ents) + '\n].\n')
+    out.append(f'Definition inner_shape_1d : in_shape := {inner_shape(c1)}.')
+    out.append(f'Definition inner_shape_2d : in_shape := {inner_shape(c2)}.')
+    return out
 
 
 GENERATORS = {'GenSigs': gen_sigs}
